@@ -116,12 +116,14 @@ Definition hash_controller (managed : bool) (f : hfault) (current_version h : st
 Inductive pool_op :=
 | PEdit (h : string)        (* the template is edited; its hash is now h *)
 | PRecreate (h : string)    (* the pool is deleted and created again under the same name: template hash h, no annotations *)
+| PBuild                    (* a template / claim is built from the pool object: read-only *)
 | PHashCtl.
 Record pool_state := mkPS { ps_template_hash : string; ps_ann : option string * option string }.
 Definition pool_step (ver : string) (s : pool_state) (o : pool_op) : pool_state :=
   match o with
   | PEdit h => mkPS h (ps_ann s)
   | PRecreate h => mkPS h (None, None)
+  | PBuild => s
   | PHashCtl => mkPS (ps_template_hash s) (fst (hash_reconcile ver (ps_template_hash s) (ps_ann s) []))
   end.
 Definition build_stamp (ver : string) (s : pool_state) : option string * option string :=
